@@ -44,6 +44,14 @@ def make_scenarios(ctx, count):
                 feed(1, G.f_probe(rng, netb, to_me=rng.random() < 0.7), "F")
             for _ in range(rng.randint(0, 2)):
                 feed(0, G.f_hello(rng, neta), "F")
+            if rng.random() < 0.35:
+                # quick-discovery traffic of the same mapper (or another enumerator) in the middle of the topology session
+                qsrc = rng.choice([m, (m + 1) % len(neta.mappers)])
+                tgt = rng.choice([0, 1, 1])
+                net_t = neta if tgt == 0 else netb
+                if rng.random() < 0.5:
+                    feed(tgt, G.f_discover(rng, net_t, m=qsrc, tos=1), "F")
+                feed(tgt, G.f_reset(rng, net_t, m=qsrc, tos=1), "F")
             if rng.random() < 0.5:
                 third = rng.choice(netb.strangers)
                 for (_k, _p, s_i, d_i) in rng.sample(descs, min(len(descs), rng.randint(1, 3))):
